@@ -380,6 +380,49 @@ def check_field(res, facts):
             rule.ok(key, "%d Ok path(s) all pass flag extraction and from_bigint" % len(okp), fn.loc)
 
 
+def check_nopanic(res, facts):
+    """malformed input must be rejected, not panic: in the coordinate-recovery helpers and point readers, no division by
+    (and no unwrapped inverse / square root of) a value computed from the input.  Field `Div` is `inverse().unwrap()`,
+    so `a / b` with input-dependent b panics when b = 0 (e.g. a - d*y^2 on an incomplete Edwards curve)."""
+    from arklib import dataflow as DF
+    from rules.c07 import E, show
+    rule = res.rule("R-NOPANIC", "coordinate recovery / point readers: no division by, or unwrap of an inverse / root of, an input-dependent value", 20)
+    NT = DF.TRANSPARENT - {"unwrap", "expect"}
+    for unit in UNITS:
+        for f in facts.fns(unit=unit):
+            if "::tests::" in f.id or "::test::" in f.id:
+                continue
+            root = f if f.kind != "Closure" else None
+            pid = f.id if f.kind != "Closure" else (f.d.get("parent") or "")
+            base = pid.split("::{closure")[0]
+            nm = base.rsplit("::", 1)[-1]
+            if not (nm.startswith(("get_xs_from_y", "get_ys_from_x", "get_point_from_")) or (nm in ("deserialize_with_mode", "deserialize_with_flags", "from_random_bytes_with_flags", "from_random_bytes") and ("short_weierstrass" in pid or "twisted_edwards" in pid or f.crate not in ("ark_ff", "ark_serialize", "ark_poly", "ark_ec") and "curves" in pid))):
+                continue
+            if not ("short_weierstrass" in pid or "twisted_edwards" in pid or "curves::" in pid):
+                continue
+            key = "%s|%s" % (f.crate, f.id[-90:])
+            problems = []
+            for bb, t in f.calls():
+                n = t["f"].get("name")
+                tr = t["f"].get("trait") or ""
+                if n in ("div", "div_assign") and tr.startswith("core::ops::arith::Div") and len(t["args"]) == 2:
+                    d = DF.expr(f, t["args"][1], depth=20)
+                    txt = DF.show(d)
+                    if "arg" in txt or "phi" in txt or d[0] in ("call", "bin"):
+                        if not (d[0] == "const"):
+                            problems.append("divides by %s" % txt[:80])
+                if n in ("unwrap", "expect") and t["args"] and not t.get("mac"):
+                    e = DF.expr(f, t["args"][0], depth=12, transparent=NT)
+                    if isinstance(e, tuple) and e[0] == "call" and e[1] in ("inverse", "sqrt", "inverse_in_place"):
+                        inner = DF.show(e[2][0]) if e[2] else ""
+                        if "arg" in inner or "phi" in inner:
+                            problems.append("unwraps %s(%s)" % (e[1], inner[:60]))
+            if problems:
+                rule.bad(key, "%s: for an input that makes this value zero (or a non-residue) the reader panics instead of returning an error" % "; ".join(sorted(set(problems))), f.loc)
+            else:
+                rule.ok(key, "no input-dependent division / unwrap", f.loc)
+
+
 def run(ctx, res):
     facts = ctx.facts(UNITS)
     res.analysed = facts.stats()
@@ -388,6 +431,7 @@ def run(ctx, res):
     serflow.check_flow(rc, rv, facts, UNITS)
     check_points(res, facts)
     check_field(res, facts)
+    check_nopanic(res, facts)
     # batched validation (Valid::batch_check, parallel arm included) must visit every element
     from rules import c14
     c14.check_tail(res, ctx.facts(["ws", "par", "shapes"]))
